@@ -17,8 +17,8 @@ MIN_NONTRIVIAL = {"quick": 1000, "thorough": 5000}
 EXHAUSTIVE = {"quick": True, "thorough": True}
 BLOCK = 256
 MAXLEN = {"quick": 5, "thorough": 6}
-N_RANDOM = {"quick": 3000, "thorough": 300000}
-N_GLOBAL = {"quick": 400, "thorough": 20000}
+N_RANDOM = {"quick": 20000, "thorough": 300000}
+N_GLOBAL = {"quick": 2000, "thorough": 20000}
 RULE = ("part A (exhaustive): every history of length 1..L (L=5 quick, 6 thorough) over the alphabet {8 register forms: "
         "(A) sub/exact, (B) sub/exact, (A) prio 1, (B) prio 1, attr='tag', metaclass=Meta} u {resolve A,B,C,E,M} on a fresh "
         "TypeRegistry(cache=True) (class hierarchy A, B(A), C(B), E(A, has attr), M(metaclass Meta)); part B: random histories "
